@@ -198,6 +198,13 @@ class OTAFirmware:
                 fw_ver,
             )
             return
+        if not (0 <= fw_type <= 65535 and 0 <= fw_ver <= 65535):
+            _LOGGER.error(
+                "Firmware type %s or version %s not valid, must be in range 0-65535",
+                fw_type,
+                fw_ver,
+            )
+            return
         if fw_bin is not None:
             fware = prepare_fw(fw_bin)
             self.firmware[fw_type, fw_ver] = fware
